@@ -168,7 +168,8 @@ Proof.
   destruct (spec_elts ncols q t) as [B|] eqn:Es; [|exact I]. intros Hdef.
   (* the classes *)
   unfold known_class_case in Hk7.
-  destruct (known_class_q ncols q =? 0)%Z eqn:Ek; cbn [negb] in Hk7; [|exact (False_ind _ (Z.eqb_neq _ _ Ek Hk7))].
+  destruct (known_class_q ncols q =? 0)%Z eqn:Ek; cbn [negb] in Hk7.
+  2: { apply Z.eqb_neq in Ek. contradiction. }
   apply Z.eqb_eq in Ek.
   destruct (class0_facts ncols q Ek) as [Hdw _].
   (* the model *)
